@@ -661,7 +661,12 @@ func vC11Run(c vSx) (r vC11Res) {
 			switch op.l[0].int() {
 			case 0:
 				cfg := append([]byte{}, op.l[1].b...)
-				err := a.SetASC(cfg)
+				var err error
+				if msg := vPanicText(func() { err = a.SetASC(cfg) }); msg != "" {
+					outs = append(outs, vPanicObs())
+					r.bad("no-panic", "SetASC panicked inside a history: "+msg)
+					continue
+				}
 				o, sr, ch := int(a.asc.Object), int(a.asc.SampleRate), int(a.asc.Channels)
 				if err != nil {
 					outs = append(outs, vL(vZ(1), vI(vC11Code(err, true)), vI(o), vI(sr), vI(ch)))
@@ -677,7 +682,13 @@ func vC11Run(c vSx) (r vC11Res) {
 				}
 			case 1:
 				raw := append([]byte{}, op.l[1].b...)
-				frame, err := a.Encode(raw)
+				var frame []byte
+				var err error
+				if msg := vPanicText(func() { frame, err = a.Encode(raw) }); msg != "" {
+					outs = append(outs, vPanicObs())
+					r.bad("no-panic", "Encode panicked inside a history: "+msg)
+					continue
+				}
 				if err != nil {
 					outs = append(outs, vErr(vC11Code(err, false)))
 					if known && vC11Accepted(so, ssr, sch) {
